@@ -13,9 +13,12 @@
 (* delimiter iff it was.  Element headers are deferred until the value.      *)
 (* Under strategy "U" an item start keeps its recorded length while the      *)
 (* last saved header is an encapsulated pixel data header (the code's way   *)
-(* of telling fragments from data set items); the saved header is only      *)
-(* replaced by the next element header, so a data set item that follows a   *)
-(* pixel sequence keeps an explicit recorded length too (flag `kept`).      *)
+(* of telling fragments from data set items); the saved header is dropped   *)
+(* at the sequence end (fix 'forget the pixel data header at the end of its *)
+(* sequence'; before it, a data set item following a pixel sequence kept a  *)
+(* recorded explicit length that strategy "U" had made stale).  The flag    *)
+(* `kept` records an explicit data set item length surviving strategy "U";  *)
+(* NeverKept states it cannot happen any more.                              *)
 (*                                                                         *)
 (* Checked by TLC against the PS3.5 reference (PS35!Wire / Parse):          *)
 (*   Accounting   bytes_written = Len(out) after every token                *)
@@ -103,11 +106,12 @@ WItemEnd ==
 
 WSeqEnd ==
     /\ Is("SeqEnd")
+    /\ lastDe' = NoDe          \* the end of a sequence ends an encapsulated pixel data element too
     /\ IF Len(stack) > 0
        THEN /\ Pop
             /\ IF Top.typ = "Seq" /\ Top.undef THEN Emit(SeqDelim(ts), 8) ELSE UNCHANGED <<out, written>>
        ELSE UNCHANGED <<stack, out, written>>
-    /\ i' = i + 1 /\ UNCHANGED <<ds, ts, strat, toks, lastDe, kept>>
+    /\ i' = i + 1 /\ UNCHANGED <<ds, ts, strat, toks, kept>>
 
 WHeader ==
     /\ Is("Header")
@@ -151,6 +155,7 @@ OutIsWire == (Done /\ ~kept) => out = Wire(ds, ts, strat)
 OutIsValid == Done => LET p == Parse(out, ts, Dict)
                       IN p.ok /\ StripLm(p.ds) = StripLm(RawTree(ds, ts, "K", Dict))
 (* the writer deviates from Wire only in the documented situation *)
+NeverKept == ~kept
 KeptOnlyAfterPixel == kept => \E j \in 1..(i - 1) : toks[j].t = "PixStart"
 
 (* generator: each finished run as a case for the real DataSetWriter *)
